@@ -689,7 +689,18 @@ theorem lenient_string_for_int_witness :
   refine ⟨by rfl, by rfl, by rfl⟩
 
 
-/-! ## the generated coercion is the specification's coercion -/
+/-! ## the generated coercion is the specification's coercion
+
+Full-strength statement (NOT proved; evaluated on every generated case by the check as `model-vs-spec`):
+
+    ∀ s c vars defs given fp,  fieldStep s c (varValues …) defs given fp = Spec.fieldStep Devs.all s c (coerceVars …) defs given fp
+
+i.e. also the converse direction (whatever the code accepts is the specification's value once the six enumerated
+deviations are switched on) and the equality of error paths, through gqlparser's `VariableValues` / `arg2map` as
+modelled. What is proved is `coerce_eq_spec` below — the direction "the specification accepts ⇒ the generated code
+delivers exactly that value", for the generated code proper (`unm`: type.gotpl / input.gotpl / CoerceList / the
+scalar unmarshalers) — together with the witnesses above showing that without the deviations the statement is false
+on the unchanged tree. -/
 
 /-- **coerce_eq_spec — valid inputs, all type shapes, all configurations.** For every schema (distinct field
     names, literal defaults, types whose Go shapes fit them), every configuration, every GraphQL type `t` with a
